@@ -58,18 +58,45 @@ func TestC01(t *testing.T) {
 				got, err := m.Node.FindSuccessor(q)
 				lookups++
 				want := ownerOf(sorted, q)
+				if err == nil && got != nil && got.ID() == want {
+					continue
+				}
+				var g any = nil
+				if got != nil {
+					g = got.ID()
+				}
+				// "Once the ring has stabilized": a maintenance call that was computed from older
+				// information and stored after the convergence check (two stabilizers run concurrently
+				// by design) can transiently un-converge the ring. A wrong answer or an error counts
+				// only if the ring is still converged right after the lookup AND the failure reproduces
+				// on the re-settled ring (a stale write may have been repaired between the lookup and
+				// the re-check; a genuine routing defect is persistent).
+				if c2 := checkConverged(r.live(), true); c2.Problem != "" {
+					rec.Inconclusive("ring-destabilised-by-in-flight-maintenance")
+					t.Logf("lookup mismatch on a ring that is no longer converged: %s", c2.Problem)
+					return
+				}
+				persistent := true
+				for try := 0; try < 3 && persistent; try++ {
+					if _, c3 := r.settle(20, true, nil); c3.Problem != "" {
+						persistent = false
+						break
+					}
+					g2, e2 := m.Node.FindSuccessor(q)
+					if e2 == nil && g2 != nil && g2.ID() == want {
+						persistent = false
+					}
+				}
+				if !persistent {
+					rec.Inconclusive("transient-lookup-failure-not-reproducible-on-settled-ring")
+					return
+				}
 				if err != nil {
 					rec.Fail(t, "lookup-error-on-stable-ring", map[string]any{"ids": ids, "via": vias, "start": m.ID, "key": q, "err": err.Error()},
 						"FindSuccessor(%d) from %d on stable ring %v: error %v", q, m.ID, sorted, err)
 				}
-				if got == nil || got.ID() != want {
-					var g any = nil
-					if got != nil {
-						g = got.ID()
-					}
-					rec.Fail(t, "wrong-owner", map[string]any{"ids": ids, "via": vias, "start": m.ID, "key": q, "got": g, "want": want},
-						"FindSuccessor(%d) from %d = %v, want %d (ring %v)", q, m.ID, g, want, sorted)
-				}
+				rec.Fail(t, "wrong-owner", map[string]any{"ids": ids, "via": vias, "start": m.ID, "key": q, "got": g, "want": want},
+					"FindSuccessor(%d) from %d = %v, want %d (ring %v)", q, m.ID, g, want, sorted)
 			}
 		}
 		rec.Add("lookups", int64(lookups))
